@@ -52,6 +52,14 @@ def gen_cases(tier, seed):
         plist += [p for p in plans.sampled_placements(rng, ns, ALPHA_PLAIN, 3, 400 if tier == 'quick' else 3000)]
         if tier == 'thorough':
             plist += [p for p in plans.sampled_placements(rng, ns, ALPHA_PLAIN, 4, 2000)]
+        # a kill requested and withdrawn again by its requester (the future it got is cancelled) before it is carried out: the
+        # process lives on, and a wake-up before, between or after the two must still arrive
+        for s0 in range(0, ns + 1):
+            kw = [{'at': s0, 'act': ['kill', 'k']}, {'at': s0, 'act': ['cancel_ret', 'kill']}]
+            for s1 in range(s0, min(ns, s0 + 2) + 1):
+                plist.append(kw + [{'at': s1, 'act': ['resume', ['late']]}])
+            plist.append([kw[0], {'at': s0, 'act': ['resume', ['between']]}, kw[1]])
+            plist.append([{'at': s0, 'act': ['resume', ['before']]}] + kw)
         for i, plan in enumerate(plist):
             yield {'kind': 'plain', 'name': name, 'program': prog, 'plan': plans.uniq(plan, 'q%d' % i), 'drain': True, 'listener': True}
     # (b) workchains
@@ -94,6 +102,15 @@ def run_case(case):
     if case['kind'] == 'plain':
         rec = lifecycle.run_case(case)
         viol = [v for v in judges.judge_trace(rec, 'C06')] if rec.get('inconclusive') is None else []
+        if any(e['act'][0] == 'kill' for e in case['plan']):
+            fin = rec['final'] or {}
+            km = fin.get('killed_msg') or [None, None]
+            if fin.get('state') == 'killed' and km[0] == 'ok' and (km[1] or {}).get('message') in [e['act'][1] for e in case['plan'] if e['act'][0] == 'kill']:
+                # the kill was carried out before its requester withdrew it: no wake-up is owed to a killed process
+                viol = []
+                obs['kill_carried_out'] = 1
+            else:
+                obs['kill_withdrawn_runs'] = 1
         obs['plain_runs'] = 1
         obs['continuations_checked'] = sum(1 for e in rec['events'] if e[0] == 'trace' and e[1] == 'enter')
         wk = ('resume',)
